@@ -754,8 +754,10 @@ class ContextStateTransaction(_TransactionBase):
                 self._logger.info('disassociate %s, handle=%s', old_state.NODETYPE.localname,
                                   old_state.Handle)
                 transaction_state = self.get_context_state(old_state.Handle)
+                was_associated = transaction_state.ContextAssociation == pm_types.ContextAssociation.ASSOCIATED
                 transaction_state.ContextAssociation = pm_types.ContextAssociation.DISASSOCIATED
-                if transaction_state.UnbindingMdibVersion is None:
+                # a state that was associated again after an earlier unbinding still carries the old marks
+                if was_associated or transaction_state.UnbindingMdibVersion is None:
                     transaction_state.UnbindingMdibVersion = self.new_mdib_version
                     transaction_state.BindingEndTime = time.time()
                 disassociated_state_handles.append(transaction_state.Handle)
